@@ -45,6 +45,17 @@ CHECKS = {
    note="Known findings C07-F1 (cache without valid bits) and C07-F2 (SRAM wrap burst longer than its modulus) are excluded "
         "by region and replayed; CSR bridge accessed with whole words only.",
    tech="deterministic simulation, seeded transaction-history and latency search, reference byte-memory (linearizable single master)"),
+ "C08": dict(cat="exploration", ref="DESIGN.md 5.C08",
+   text="Real AXI-Lite Arbiter/Decoder/InterconnectShared/Crossbar/PointToPoint (1-3 x 1-3) between masters with five "
+        "independent channel drivers (AW/W gaps, up to 4 outstanding, concurrent reads and writes, B/R back-pressure) and "
+        "slaves with independent acceptors, literal ready patterns, latencies and queue depths; every handshake is logged "
+        "with its cycle: each master-side AW/W/AR handshake must appear as exactly one slave-side handshake in the same "
+        "cycle at the decoded slave, each B/R must reach the owner of the oldest outstanding request, read data in issue "
+        "order, no foreign request accepted while responses are outstanding, reads independent of a blocked W channel, "
+        "all masters served. Sampling, not proof.",
+   note="Known findings C08-F1 (second request to another slave while locked) and C08-F2 (W before AW) are excluded by "
+        "region and replayed canonically. AXI4-full twins are covered through C09/C10/C11 families only.",
+   tech="deterministic simulation, seeded five-channel schedule search, same-cycle handshake correlation + ordering history"),
  "C16": dict(cat="exploration", ref="DESIGN.md 5.C16",
    text="Seeded search over header definitions, data widths, packet lists, valid/ready schedules and selector changes for "
         "Packetizer, Depacketizer, their round trip, PacketFIFO, Arbiter and Dispatcher on the real simulator; outputs "
